@@ -235,7 +235,7 @@ func runC34(env *mc.Env) {
 		d, detail, agree, steps := w.exec(c)
 		env.R.EvalN(int64(2 * steps))
 		if d != "" {
-			report(c, "castgrid:"+g.Name, d, detail)
+			report(c, g.Sig, d, detail)
 			return
 		}
 		if strings.Contains(agree.kind, "CheckerError") || strings.Contains(agree.kind, "ParsingCheckingError") {
